@@ -126,6 +126,12 @@ def client_hostile(w, rnd, mon, full):
                 a = rnd.choice([M.to_le(1), M.to_le(2), b"\xff" * 32, M.to_le(0)])
                 w.script([a])
                 setup.append("rng_script\tchunks=" + a.hex())
+            if rnd.random() < 0.15 and getattr(w, "b", None) is None:
+                # a sibling session towards a realm that announces a nonsense group (modulus 0 or 1) fails first - whatever that
+                # call does is not judged (foreign groups are outside this property) - and must leave nothing behind
+                sib = w.call("cli_new", into=14, u=user, p=pw, g=7, N=M.to_le(rnd.randint(0, 1)), B=M.to_le(5), salt=salt)
+                setup.append(sib.cmd)
+                mon.count("contained_failing_sibling_sessions")
             ev = w.call("cli_new", into=4, u=user, p=pw, g=7, N=N_HEX, B=B, salt=salt)
             if ev.status == "err":
                 mon.count("hostile_B_refused_as_public_key")
